@@ -122,6 +122,7 @@ func (vc *VC) initState(sp *ssa.Package) (*State, error) {
 	for _, p := range vc.eng.repoDeps(sp) {
 		initFn := p.Func("init")
 		if initFn == nil {
+			vc.initDone[p] = true
 			continue
 		}
 		func() {
@@ -138,7 +139,10 @@ func (vc *VC) initState(sp *ssa.Package) (*State, error) {
 				}
 			}()
 			vc.dry++
+			vc.initRunning = p
 			outs := vc.callFunction(initFn, nil, nil, st, nil)
+			vc.initRunning = nil
+			vc.initDone[p] = true
 			vc.dry--
 			var ok []Outcome
 			for _, o := range outs {
@@ -374,6 +378,7 @@ func (vc *VC) initStateExcluding(sp *ssa.Package) (*State, error) {
 	for _, p := range deps[:len(deps)-1] {
 		initFn := p.Func("init")
 		if initFn == nil {
+			vc.initDone[p] = true
 			continue
 		}
 		func() {
@@ -391,7 +396,10 @@ func (vc *VC) initStateExcluding(sp *ssa.Package) (*State, error) {
 				}
 			}()
 			vc.dry++
+			vc.initRunning = p
 			outs := vc.callFunction(initFn, nil, nil, st, nil)
+			vc.initRunning = nil
+			vc.initDone[p] = true
 			vc.dry--
 			if len(outs) != 1 || outs[0].Panic {
 				err = fmt.Errorf("init of %s has %d paths", p.Pkg.Name(), len(outs))
@@ -404,6 +412,7 @@ func (vc *VC) initStateExcluding(sp *ssa.Package) (*State, error) {
 		}
 	}
 	st.written = map[*Cell]bool{}
+	vc.initRunning = sp
 	return st, nil
 }
 
